@@ -61,6 +61,7 @@ type scenario struct {
 	gs      sync.Map // goroutine id -> *gstate
 	nids    int
 	reenter bool
+	script  func(s *scenario, g *gstate, ev agentEv) // scripted handler behaviour (targeted scenarios)
 }
 
 func (s *scenario) handler(h int) stun.Handler {
@@ -75,6 +76,10 @@ func (s *scenario) handler(h int) stun.Handler {
 		top.evs = append(top.evs, ev)
 		if g.r.chance(1, 3) {
 			runtime.Gosched()
+		}
+		if s.script != nil {
+			s.script(s, g, ev)
+			return
 		}
 		// reentrancy: never from an event delivered by Close (the mutex is held there)
 		if s.reenter && ev.kind != 3 && len(g.stack) < 3 && g.r.chance(1, 3) {
@@ -112,7 +117,7 @@ func (s *scenario) doCall(g *gstate, op []int) {
 	var err error
 	switch op[0] {
 	case 1:
-		err = s.a.Start(agentTID(op[1]), agentBase.Add(time.Duration(op[2])))
+		err = s.a.Start(agentTID(op[1]), agentDeadline(op[2]))
 	case 2:
 		if op[2] == 0 {
 			err = s.a.Stop(agentTID(op[1]))
@@ -126,7 +131,7 @@ func (s *scenario) doCall(g *gstate, op []int) {
 		}
 		err = s.a.Process(pm)
 	case 4:
-		err = s.a.Collect(agentBase.Add(time.Duration(op[1])))
+		err = s.a.Collect(agentDeadline(op[1]))
 	case 5:
 		err = s.a.SetHandler(s.handler(op[1]))
 	case 6:
@@ -504,8 +509,139 @@ func runC14(o *out, thorough bool, r *rng, _ []string) map[string]interface{} {
 		o.emit(1401, fields, obsOf(calls, order), true)
 		o.count(fmt.Sprintf("goroutines:%02d", j.ngo))
 	}
+	scriptedAgentScenarios(o, "C14")
 	o.countN("calls", total)
 	o.countN("nested-calls-from-handlers", nested)
 	o.countN("overlapping-call-pairs", overlaps)
 	return map[string]interface{}{"exhaustive": false}
+}
+
+// ---- scripted scenarios: reentrant and overlapping Collects, more than a hundred expirations ----
+
+// emitHistory searches a linearization of the recorded calls, reports a history that has none, and emits
+// the case for the model
+func emitHistory(o *out, prop, desc string, calls []*ccall) {
+	for i, c := range calls {
+		c.idx = i
+		sort.Slice(c.evs, func(a, b int) bool { return c.evs[a].id < c.evs[b].id })
+	}
+	order, exhausted := findLinearization(calls)
+	if exhausted {
+		o.count("scenarios:search-budget-exhausted (skipped, nothing claimed)")
+		return
+	}
+	if order == nil {
+		order = make([]int, len(calls))
+		for k := range order {
+			order[k] = k
+		}
+		sort.Slice(order, func(a, b int) bool { return calls[order[a]].inv < calls[order[b]].inv })
+		var hs []string
+		for _, k := range order {
+			c := calls[k]
+			if len(hs) < 40 {
+				hs = append(hs, fmt.Sprintf("g%d[%d,%d]%v=>%d%v", c.tid, c.inv, c.res, c.op, c.ret, c.evs))
+			}
+		}
+		o.failFor(prop, "not-linearizable", desc+" history: "+strings.Join(hs, " "))
+	}
+	fields := []string{fNums(order...)}
+	for _, c := range calls {
+		fields = append(fields, callField(c))
+	}
+	o.emit(1401, fields, obsOf(calls, order), true)
+	o.count("scripted:" + strings.Fields(desc)[0])
+}
+
+func scriptedAgentScenarios(o *out, prop string) {
+	newScenario := func() (*scenario, *gstate) {
+		s := &scenario{nids: 4}
+		s.a = stun.NewAgent(s.handler(1))
+		g := &gstate{tid: 0, r: newRng(1)}
+		s.gs.Store(goid(), g)
+		return s, g
+	}
+	// (a) a timeout handler registers two more expired transactions and collects them itself
+	for rep := 0; rep < 3; rep++ {
+		s, g := newScenario()
+		fired := false
+		s.script = func(s *scenario, g *gstate, ev agentEv) {
+			if ev.kind == 2 && !fired {
+				fired = true
+				s.doCall(g, []int{1, 3, 1})
+				s.doCall(g, []int{1, 4, 1})
+				s.doCall(g, []int{4, 5})
+			}
+		}
+		for _, op := range [][]int{{1, 1, 1}, {1, 2, 1}, {4, 5 + rep}, {4, 9}, {2, 3, 0}, {6}} {
+			s.doCall(g, op)
+		}
+		s.gs.Delete(goid())
+		emitHistory(o, prop, "reentrant-collect", s.calls)
+	}
+	// (b) a hundred and more expirations in one Collect; the first handler registers a late, already expired
+	// transaction: the Collect that is running must not time it out (its critical section is over)
+	for _, k := range []int{99, 100, 101, 130} {
+		s, g := newScenario()
+		fired := false
+		s.script = func(s *scenario, g *gstate, ev agentEv) {
+			if ev.kind == 2 && !fired {
+				fired = true
+				s.doCall(g, []int{1, 999, 1})
+			}
+		}
+		for id := 1; id <= k; id++ {
+			s.doCall(g, []int{1, id, 1})
+		}
+		for _, op := range [][]int{{4, 5}, {2, 999, 0}, {4, 9}, {6}} {
+			s.doCall(g, op)
+		}
+		s.gs.Delete(goid())
+		emitHistory(o, prop, fmt.Sprintf("mass-expiry-with-late-start k=%d", k), s.calls)
+	}
+	// (c) after a Collect of more than a hundred, two Collects overlap: the first is held in its first
+	// handler call while a second one, in another goroutine, collects other transactions
+	for rep := 0; rep < 3; rep++ {
+		s, g := newScenario()
+		for id := 1; id <= 120; id++ {
+			s.doCall(g, []int{1, id, 1})
+		}
+		s.doCall(g, []int{4, 5}) // grows whatever buffer Collect keeps
+		for _, id := range []int{201, 202, 203} {
+			s.doCall(g, []int{1, id, 10})
+		}
+		hold, resume := make(chan struct{}), make(chan struct{})
+		held := false
+		var hmu sync.Mutex
+		s.script = func(s *scenario, g *gstate, ev agentEv) {
+			hmu.Lock()
+			first := ev.kind == 2 && !held && g.tid == 0
+			if first {
+				held = true
+			}
+			hmu.Unlock()
+			if first {
+				close(hold)
+				<-resume
+			}
+		}
+		done := make(chan struct{})
+		go func() {
+			g2 := &gstate{tid: 1, r: newRng(2)}
+			s.gs.Store(goid(), g2)
+			<-hold
+			for _, id := range []int{301, 302, 303} {
+				s.doCall(g2, []int{1, id, 10})
+			}
+			s.doCall(g2, []int{4, 20})
+			s.gs.Delete(goid())
+			close(resume)
+			close(done)
+		}()
+		s.doCall(g, []int{4, 15}) // collects 201..203; held in the first handler call
+		<-done
+		s.doCall(g, []int{6})
+		s.gs.Delete(goid())
+		emitHistory(o, prop, "overlapping-collects-after-mass-collect", s.calls)
+	}
 }
